@@ -69,6 +69,7 @@ type Verifier struct {
 	lemmasUsed      map[string]bool
 	autoFrameKept   map[string]bool
 	sweepMode       bool
+	sweepScope      func(key string) bool // functions verified by the zero-annotation sweep of the running check
 	curWS           *writeSet
 }
 
@@ -980,6 +981,9 @@ func (v *Verifier) verifyFuncOnce(fn *ssa.Function, con *Contract) (unit *Unit) 
 				// (decoders and constructors build real objects)
 				x := fr.vals[p].term
 				st.assume("(=> ((_ is VRef) (ival " + x + ")) (or (= (itag " + x + ") 0) (not (= (vref (ival " + x + ")) 0))))")
+				if defaultNonNilParam(p.Type()) {
+					st.assume("(not (= (itag " + x + ") 0))")
+				}
 			}
 		}
 		for _, fv := range fn.FreeVars {
@@ -1384,7 +1388,7 @@ func freeVarWrittenOnce(fn *ssa.Function, fv *ssa.FreeVar, depth int) bool {
 			found = true
 			switch bv := mc.Bindings[idx].(type) {
 			case *ssa.Alloc:
-				if !allocWrittenOnce(bv) {
+				if !allocWrittenOnce(bv) && !allocStableAfter(bv, mc) {
 					return false
 				}
 			case *ssa.FreeVar:
@@ -1518,4 +1522,91 @@ func nonNilProducer(v ssa.Value, allowParams bool) bool {
 		return true
 	}
 	return false
+}
+
+// defaultNonNilParam: parameter types whose values are, by the sweep's default
+// precondition, not nil: pointers, and interfaces other than error and the
+// empty interface (asserted at the call sites of functions without contract,
+// assumed inside them).
+func defaultNonNilParam(t types.Type) bool {
+	switch u := t.Underlying().(type) {
+	case *types.Pointer:
+		return true
+	case *types.Interface:
+		if u.NumMethods() == 0 {
+			return false
+		}
+		if n, ok := types.Unalias(t).(*types.Named); ok && n.Obj().Pkg() == nil && n.Obj().Name() == "error" {
+			return false
+		}
+		return true
+	}
+	return false
+}
+
+// allocStableAfter: no store to the variable can execute after the closure mc
+// has been created (every store lies on paths before the capture only), its
+// address does not escape otherwise, and every closure capturing it only reads it.
+func allocStableAfter(a *ssa.Alloc, mc *ssa.MakeClosure) bool {
+	refs := a.Referrers()
+	if refs == nil {
+		return false
+	}
+	var stores []*ssa.Store
+	for _, r := range *refs {
+		switch x := r.(type) {
+		case *ssa.Store:
+			if x.Addr != ssa.Value(a) {
+				return false
+			}
+			stores = append(stores, x)
+		case *ssa.UnOp:
+			if x.Op != token.MUL {
+				return false
+			}
+		case *ssa.DebugRef:
+		case *ssa.MakeClosure:
+			fn := x.Fn.(*ssa.Function)
+			for i, b := range x.Bindings {
+				if b == ssa.Value(a) && !freeVarReadOnly(fn.FreeVars[i], 0) {
+					return false
+				}
+			}
+		default:
+			return false
+		}
+	}
+	// blocks reachable from the point just after mc
+	reach := map[*ssa.BasicBlock]bool{}
+	var stack []*ssa.BasicBlock
+	for _, s := range mc.Block().Succs {
+		stack = append(stack, s)
+	}
+	for len(stack) > 0 {
+		b := stack[len(stack)-1]
+		stack = stack[:len(stack)-1]
+		if reach[b] {
+			continue
+		}
+		reach[b] = true
+		stack = append(stack, b.Succs...)
+	}
+	for _, st := range stores {
+		if reach[st.Block()] {
+			return false
+		}
+		if st.Block() == mc.Block() {
+			// same block: the store must come before the capture
+			after := false
+			for _, ins := range mc.Block().Instrs {
+				if ins == ssa.Instruction(mc) {
+					after = true
+				}
+				if ins == ssa.Instruction(st) && after {
+					return false
+				}
+			}
+		}
+	}
+	return true
 }
